@@ -214,8 +214,26 @@ def check_line(c, do_kill=False):
     for k, v in exp.items():
         if kv.get(k) != v:
             raise Violation('settings', 'companion file reports %s=%s, effective setting is %s: %s' % (k, kv.get(k), v, ' '.join(argv)))
-    if c['activity'] is not None and abs(float(kv.get('activity-Bq', 'nan')) - c['activity']) > 1e-9 * c['activity']:
+    if c['activity'] is not None and abs(float(kv.get('activity-Bq', 'nan')) - c['activity']) > 2e-5 * c['activity']:
         raise Violation('settings', 'companion file activity-Bq=%s vs %r' % (kv.get('activity-Bq'), c['activity']))
+    def near(key, want):
+        try:
+            return abs(float(kv.get(key, 'nan')) - want) <= 2e-5 * abs(want) + 1e-12
+        except ValueError:
+            return False
+    if c['emin'] is not None and not near('erange-min-energy-MeV', c['emin']):
+        raise Violation('settings', 'companion file erange-min-energy-MeV=%s, requested %r: %s' % (kv.get('erange-min-energy-MeV'), c['emin'], ' '.join(argv)))
+    if c['emax'] is not None and not near('erange-max-energy-MeV', c['emax']):
+        raise Violation('settings', 'companion file erange-max-energy-MeV=%s, requested %r: %s' % (kv.get('erange-max-energy-MeV'), c['emax'], ' '.join(argv)))
+    if c['mdl'] is not None:
+        m = c['mdl']
+        for key, want in (('mdl.cone_phi_degree', m['phi']), ('mdl.cone_theta_degree', m['theta']), ('mdl.cone_aperture_degree', m['aperture'])):
+            if not near(key, want):
+                raise Violation('settings', 'companion file %s=%s, requested %r: %s' % (key, kv.get(key), want, ' '.join(argv)))
+        if kv.get('mdl.target_particle_rank') != str(m['rank']):
+            raise Violation('settings', 'companion file mdl.target_particle_rank=%s, requested %r: %s' % (kv.get('mdl.target_particle_rank'), m['rank'], ' '.join(argv)))
+        if m.get('particle') is not None and kv.get('mdl.particle_label') != m['particle']:
+            raise Violation('settings', 'companion file mdl.particle_label=%s, requested %r: %s' % (kv.get('mdl.particle_label'), m['particle'], ' '.join(argv)))
     if c['emin'] is not None or c['emax'] is not None:
         if 'erange-toallevents' not in kv or abs(float(kv['erange-toallevents']) - float(toall)) > 1e-9 * float(toall):
             raise Violation('settings', 'companion file erange-toallevents=%s vs API %s' % (kv.get('erange-toallevents'), toall))
@@ -270,16 +288,22 @@ def lines(draw):
         if lev == 0 and draw(st.booleans()):
             c['level'] = None  # default level
         if win is not None:
+            if mode != 10 and draw(st.booleans()):   # generated bounds (2 decimals) instead of the fixed ones; the verdict and the events come from the API oracle
+                lo = draw(st.integers(5, 120)) / 100.0
+                win = (lo if win[0] is not None else None, round(lo + draw(st.integers(20, 150)) / 100.0, 2) if win[1] is not None else None)
             c['emin'], c['emax'] = win
             c['window_class'] = 'valid' if (win[0] is not None and win[1] is not None) else ('emin-only' if win[1] is None else 'emax-only')
     c['nuclide_flag'] = draw(st.sampled_from(['-N', '--nuclide']))
     c['seed'] = draw(st.sampled_from([0, 1, 314159, 2147483647]) | st.integers(0, 2 ** 31 - 1))
     c['count'] = draw(st.integers(1, 60))
     if draw(st.integers(0, 3)) == 0:
-        c['activity'] = draw(st.sampled_from([1.0, 1e3, 2.5e-3, 37000.0]))
-    if draw(st.integers(0, 4)) == 0:
-        c['mdl'] = {'particle': draw(st.sampled_from(['e-', 'gamma', 'all', '*', 'alpha', 'e+'])), 'rank': draw(st.sampled_from([-1, 0, 1, 3])), 'phi': draw(st.sampled_from([0.0, 45.0, 270.0])),
-                    'theta': draw(st.sampled_from([0.0, 90.0, 30.0, 180.0])), 'aperture': draw(st.sampled_from([0.0, 5.0, 60.0, 179.0]))}
+        # real-valued settings are drawn from decimals of at most 5 significant digits (the companion file prints 6)
+        c['activity'] = draw(st.sampled_from([1.0, 1e3, 2.5e-3, 37000.0]) | st.builds(lambda m, e: float('%de%d' % (m, e)), st.integers(1, 99999), st.integers(-7, 1)))
+    if draw(st.integers(0, 3)) == 0:
+        dec = lambda lo, hi: st.builds(lambda k, d: round(k / 10.0 ** d, d), st.integers(lo * 100, hi * 100), st.integers(0, 2))
+        c['mdl'] = {'particle': draw(st.sampled_from(['e-', 'gamma', 'all', '*', 'alpha', 'e+', 'g', 'electron', 'positron', 'a'])), 'rank': draw(st.sampled_from([-1, 0, 1, 3]) | st.integers(-1, 5)),
+                    'phi': draw(st.sampled_from([0.0, 45.0, 270.0]) | dec(-360, 720)),
+                    'theta': draw(st.sampled_from([0.0, 90.0, 30.0, 180.0]) | dec(0, 180)), 'aperture': draw(st.sampled_from([0.0, 5.0, 60.0, 179.0]) | dec(0, 179))}
     c['basename_style'] = draw(st.sampled_from(['flag', 'positional']))
     nmut = draw(st.sampled_from([0, 0, 0, 0, 0, 1, 1, 1, 2]))
     muts = [draw(st.sampled_from(MUTATIONS)) for _ in range(nmut)]
